@@ -27,65 +27,15 @@
 (* Each initial state is exported as a case (<<"CASE", json>>) for replay  *)
 (* against the real Annotations.BuildFlagValues / UseFlagsAsParameters.    *)
 (***************************************************************************)
-EXTENDS Naturals, Sequences, FiniteSets, TLC, Json
+EXTENDS FlagsSem, Json
 
 CONSTANTS FlagNames,   \* e.g. {"a", "b", "c"}
           MaxTok,      \* maximal number of tokens in a value
           LitChars,    \* code points used for ordinary characters
           Export       \* TRUE: print each initial state as a CASE line
 
-Lit(c) == <<"l", c>>
-Ref(f) == <<"r", f>>
-IsRef(t) == t[1] = "r"
 Toks == {Lit(c) : c \in LitChars} \cup {Ref(f) : f \in FlagNames}
 Values == UNION {[1..k -> Toks] : k \in 0..MaxTok}
-
-RECURSIVE FlatF(_)
-FlatF(ss) == IF ss = <<>> THEN <<>> ELSE Head(ss) \o FlatF(Tail(ss))
-
-(* Effective values: user value if given, else default if given, else the  *)
-(* flag stands for itself.  def / usr map a flag to [has, v].              *)
-Eff(def, usr) ==
-  [f \in FlagNames |-> IF usr[f].has THEN usr[f].v
-                       ELSE IF def[f].has THEN def[f].v ELSE <<Ref(f)>>]
-
-Unset(e, f) == e[f] = <<Ref(f)>>
-
-(* One substitution round (all occurrences, simultaneously).               *)
-SubstituteRound(e, text) ==
-  FlatF([i \in 1..Len(text) |->
-           IF IsRef(text[i]) /\ text[i][2] \in FlagNames
-           THEN e[text[i][2]] ELSE <<text[i]>>])
-
-RefsOf(text) == {text[i][2] : i \in {j \in 1..Len(text) : IsRef(text[j])}}
-Deps(e, f) == IF Unset(e, f) THEN {} ELSE RefsOf(e[f]) \cap FlagNames
-
-RECURSIVE Closure(_, _)
-Closure(e, S) == LET T == S \cup UNION {Deps(e, f) : f \in S}
-                 IN IF T = S THEN S ELSE Closure(e, T)
-Reach(e, text) == Closure(e, RefsOf(text) \cap FlagNames)
-OnCycle(e, f) == f \in Closure(e, Deps(e, f))
-Cyclic(e, text) == \E f \in Reach(e, text) : OnCycle(e, f)
-
-(* Full expansion, defined by structural recursion (well founded exactly   *)
-(* when ~Cyclic(e, text)).                                                 *)
-RECURSIVE Expand(_, _)
-Expand(e, text) ==
-  FlatF([i \in 1..Len(text) |->
-           LET t == text[i] IN
-             IF IsRef(t) /\ t[2] \in FlagNames /\ ~Unset(e, t[2])
-             THEN Expand(e, e[t[2]]) ELSE <<t>>])
-
-Outcome(e, text) ==
-  IF Cyclic(e, text) THEN [kind |-> "diagnosed", text |-> <<>>]
-  ELSE [kind |-> "text", text |-> Expand(e, text)]
-
-(* Materialisation as code points: ${f} is  $ { f } .  Flag names are one  *)
-(* lower-case letter in the models; NameCp maps them to code points.       *)
-NameCp(f) == CASE f = "a" -> 97 [] f = "b" -> 98 [] f = "c" -> 99
-Mat(text) == FlatF([i \in 1..Len(text) |->
-                      IF IsRef(text[i]) THEN <<36, 123, NameCp(text[i][2]), 125>>
-                      ELSE <<text[i][2]>>])
 
 -----------------------------------------------------------------------------
 (* The state machine.                                                      *)
@@ -99,8 +49,7 @@ Yes(v) == [has |-> TRUE, v |-> v]
 (* used: ${f}${f}.                                                         *)
 Decoy(f) == <<Ref(f), Ref(f)>>
 UserSets == {{}, {"a"}, FlagNames \ {"a"}, FlagNames}
-Texts == {<<Ref("a")>>} \cup
-         (IF "b" \in FlagNames THEN {<<Ref("a"), Lit(120), Ref("b")>>} ELSE {})
+Texts == {<<Ref("a")>>}
 
 (* A flag whose chosen value is ${f} itself is exported as a flag declared  *)
 (* without a default (the two are the same effective configuration).       *)
@@ -123,16 +72,20 @@ Pow(b, n) == IF n = 0 THEN 1 ELSE b * Pow(b, n - 1)
 SizeBound == 3 * Pow(IF MaxTok = 0 THEN 1 ELSE MaxTok, Cardinality(FlagNames))
 
 (* Prediction used only for scheduling the replay (never for a verdict):   *)
-(* does iterating rounds make the text grow beyond any acyclic size?       *)
-RECURSIVE Grows(_, _, _)
-Grows(e, t, n) == IF Len(t) > SizeBound THEN TRUE
-                  ELSE IF n = 0 THEN FALSE
-                  ELSE Grows(e, SubstituteRound(e, t), n - 1)
+(* does iterating rounds make the text grow geometrically?  (Such a case   *)
+(* costs the unrepaired implementation seconds and a gigabyte, so only a   *)
+(* sample of them is replayed.)  LenAfter stops counting beyond 64 tokens. *)
+RECURSIVE LenAfter(_, _, _)
+LenAfter(e, t, n) == IF n = 0 \/ Len(t) > 64 THEN Len(t)
+                     ELSE LenAfter(e, SubstituteRound(e, t), n - 1)
+Grows(e, t) == LET l4 == LenAfter(e, t, 4)
+                   l8 == LenAfter(e, t, 8)
+               IN l8 > 64 \/ (l8 >= 4 /\ l8 >= 2 * l4)
 
 CaseJson ==
   ToJson([def |-> def, usr |-> usr, text |-> text0,
           cyclic |-> Cyclic(E, text0),
-          grows |-> Grows(E, text0, 8)])
+          grows |-> Cyclic(E, text0) /\ Grows(E, text0)])
 
 Start ==
   /\ status = "new"
@@ -174,15 +127,6 @@ StaysCyclic(e, t, n) == /\ Cyclic(e, t)
                         /\ (n = 0 \/ StaysCyclic(e, SubstituteRound(e, t), n - 1))
 CyclicNeedsDiagnosis ==
   status = "diagnosed" => StaysCyclic(E, text0, ProbeRounds)
-
-(* What an implementation may do (the verdict used by FlagsTrace):         *)
-(*   acyclic  -> exactly the full expansion;                               *)
-(*   cyclic   -> a diagnosis, or a text that is a fixed point of the       *)
-(*               substitution (nothing left to expand);                    *)
-(*   never    -> running out of memory / time, or any other text.          *)
-Allowed(e, t0, kind, t) ==
-  IF ~Cyclic(e, t0) THEN kind = "text" /\ t = Expand(e, t0)
-  ELSE kind = "diagnosed" \/ (kind = "text" /\ SubstituteRound(e, t) = t)
 
 UserOverrides == \A f \in FlagNames : usr[f].has => E[f] = usr[f].v
 
